@@ -213,7 +213,49 @@ def runCtlMacro (s : Ctl.St) : List String → List String
     | some s' => showCtl s' :: runCtlMacro s' ts
     | none => "skip" :: runCtlMacro s ts
 
+/-! ### conducted schedules of one eventDebouncer (Model/PoolCtl.lean, `EvStop`) -/
+
+/-- what the flusher and stop() do by themselves once they can -/
+def evdSettle (x : EvStop.St) : Nat → EvStop.St
+  | 0 => x
+  | n + 1 =>
+    let next : Option EvStop.Act :=
+      if x.f = .select ∧ x.fired then some .fTimer
+      else if x.f = .wantLock ∧ x.mu = .none then some .fLock
+      else if x.f = .flushing then some .fFlush
+      else if x.f = .select ∧ x.s = .sending then some .fQuit
+      else if x.s = .closing then some .stopDone
+      else none
+    match next.bind (EvStop.step x) with
+    | some x' => evdSettle x' n
+    | none => x
+
+def evdMacro (x : EvStop.St) (tok : String) : Option EvStop.St :=
+  let a : Option EvStop.Act := match tok with
+    | "deb" => some .deb | "fire" => some .fire | "hlock" => some .hlock | "hunlock" => some .hunlock
+    | "stop" => some .stop | _ => none
+  (a.bind (EvStop.step x)).map (evdSettle · 8)
+
+def showEvd (x : EvStop.St) : String :=
+  let f := match x.f with | .select => "S" | .wantLock => "L" | .flushing => "F" | .exited => "X"
+  let s := match x.s with | .idle => "I" | .wantLock => "M" | .sending => "S" | .closing => "C" | .done => "D"
+  s!"f{f}s{s}c{x.callbacks}"
+
+def runEvdMacro (x : EvStop.St) : List String → List String
+  | [] => []
+  | t :: ts => match evdMacro x t with
+    | some x' => showEvd x' :: runEvdMacro x' ts
+    | none => "skip" :: runEvdMacro x ts
+
 /-- ops:
+  evd : act act …      a conducted schedule of one eventDebouncer (acts: deb fire hlock hunlock stop) →
+      `f<flusher: S select, L waiting for e.mu, X gone>s<stop(): I not called, S in its send, D returned>c<callbacks>` after
+      every action, initial state first
+  evdobs stopret=B flusherleft=N leaked=L sched=…      monitors of one such schedule (C17_evdeb_stop_never_blocked_for_good,
+      C17_evdeb_flusher_exits)
+  evdsess which=node|schema closeret=B leaked=L stack=… queryerr=… sched=…   the same schedule on a Session's own node /
+      schema event debouncer with Session.Close in the place of stop()
+  evdrace rounds=R hung=H flusherleft=F      stop() racing the timer, debounce() calls and the release of e.mu
   ctl : act act …      a conducted schedule of one Session with a control connection (acts: drop hbfailK rel dropoK relo close) →
       `h<heartbeat goroutine>c<closer>r<reconnecting>s<state>` after every action, initial state (heartbeat started) first
   ctlunit hb close | ctlunit close hb    the same letters for a fresh controlConn on which the heartbeat goroutine's
@@ -275,6 +317,29 @@ def step (_ : Unit) (ws : List String) : Unit × String :=
         else if st > 0 then "reject:no-quiescence"
         else "accept"
       | _, _, _, _, _, _, _ => "bad-op"
+  | "evd" :: ":" :: acts =>
+      ";".intercalate (showEvd EvStop.init :: runEvdMacro EvStop.init acts)
+  | "evdobs" :: r =>
+      match kv r "stopret", kv r "flusherleft", kv r "leaked" with
+      | some sr, some fl, some l =>
+        if sr ≠ 1 then "reject:stop-did-not-return"
+        else if fl > 0 then s!"reject:flusher-did-not-exit-{fl}"
+        else if l > 0 then s!"reject:goroutines-left-in-gocql-{l}"
+        else "accept"
+      | _, _, _ => "bad-op"
+  | "evdsess" :: r =>
+      match kv r "closeret", kv r "leaked", kvs r "queryerr" with
+      | some c, some l, some q =>
+        if c ≠ 1 then "reject:close-did-not-return"
+        else if l > 0 then s!"reject:goroutines-left-in-gocql-{l}:{(kvs r "stack").getD "?"}"
+        else if q != "closed" then s!"reject:query-after-close-{q}"
+        else "accept"
+      | _, _, _ => "bad-op"
+  | "evdrace" :: r =>
+      match kv r "hung", kv r "flusherleft" with
+      | some h, some f =>
+        if h > 0 then s!"reject:stop-hung-{h}" else if f > 0 then s!"reject:flusher-did-not-exit-{f}" else "accept"
+      | _, _ => "bad-op"
   | "ctl" :: ":" :: acts =>
       match Ctl.step Ctl.init .hbStart with
       | some s0 => ";".intercalate (showCtl s0 :: runCtlMacro s0 acts)
